@@ -19,6 +19,8 @@ RULE = ("arrays of 0-4 dims whose label sets are disjoint across dimensions (a l
         "class = (family, ndim, regime, kinds); trivial = 0-d array")
 ANCHORS = ["reshape.transpose", "reshape.swapaxes", "reshape.rollaxis", "reshape.repeat", "reshape.newaxis", "reshape.squeeze",
            "reshape.broadcast", "align.broadcast_arrays", "align.align_dims", "bases._get_axes_info"]
+# entry points the workload calls itself; the other anchors are helpers behind them (counted as evidence only)
+ANCHORS_REQUIRED = ["reshape.transpose", "reshape.swapaxes", "reshape.rollaxis", "reshape.repeat", "reshape.newaxis", "reshape.squeeze", "reshape.broadcast", "align.broadcast_arrays"]
 FLOORS = {"quick": {"evaluations": 1500, "distinct": 300, "outcome:variants-checked": 8000, "outcome:square-regime": 300},
           "thorough": {"evaluations": 30000, "distinct": 600}}
 FAMILIES = ['transpose', 'T', 'swapaxes', 'rollaxis', 'newaxis', 'squeeze', 'repeat', 'broadcast', 'broadcast_arrays', 'roundtrip']
